@@ -72,6 +72,10 @@ def build(rng, treelike, like=None):
                 continue
             motifs.append((sorted(vs), [(vs[a], vs[b]) for a, b in sh]))
     ids = rng.sample(range(100), len(motifs))
+    if rng.random() < 0.2:
+        # motif ids are arbitrary integers: 64-bit ids that differ only in their low bits (time-stamp << 22 | sequence number)
+        stamp = rng.randrange(1 << 40, 1 << 41) << 22
+        ids = [stamp | i for i in ids]
     relabel = rng.random() < 0.5
     if like is not None:
         ids = (list(like[0]) + [i for i in ids if i not in like[0]])[: len(motifs)]
